@@ -162,9 +162,37 @@ class Interp:
                     if x[0] == "num":
                         return x[1]
                     return None
+
+                def scaled(x):
+                    """(k, atom) for k·atom with k a non-zero constant"""
+                    if x[0] == "sym" and x[1] in om:
+                        return 1.0, x
+                    if x[0] == "lin" and x[2] == 0 and len(x[1]) == 1 and x[1][0][0][0] == "sym" and x[1][0][0][1] in om:
+                        return float(x[1][0][1]), x[1][0][0]
+                    return None
+
+                def finite_(x):
+                    return all(y[0] in ("lin", "mul", "div", "sym", "num") and (y[0] != "sym" or y[1] in om)
+                               and (y[0] != "num" or abs(y[1]) != float("inf")) and (y[0] != "div" or (y[2][0] == "num" and y[2][1] != 0))
+                               for y in sym.walk(x))
                 ra, rb = rep_(a), rep_(b)
                 if ra is not None and rb is not None and (a[0] == "sym" or b[0] == "sym"):
                     return {"<": ra < rb, "<=": ra <= rb, ">": ra > rb, ">=": ra >= rb, "==": ra == rb, "!=": ra != rb}[op]
+                sa_, sb_ = scaled(a), scaled(b)
+                if sa_ and sb_ and sa_[0] == sb_[0]:
+                    # k·x against k·y: the order of x and y, reversed for negative k
+                    xa, xb = om[sa_[1][1]], om[sb_[1][1]]
+                    if sa_[0] < 0:
+                        xa, xb = xb, xa
+                    return {"<": xa < xb, "<=": xa <= xb, ">": xa > xb, ">=": xa >= xb, "==": xa == xb, "!=": xa != xb}[op]
+                for x_, y_, flip in ((a, b, False), (b, a, True)):
+                    if y_[0] == "num" and abs(y_[1]) == float("inf") and finite_(x_) and any(z[0] == "sym" for z in sym.walk(x_)):
+                        pos_inf = y_[1] > 0
+                        lt = pos_inf  # x < +inf, x > -inf
+                        table = {"<": lt, "<=": lt, ">": not lt, ">=": not lt, "==": False, "!=": True}
+                        if flip:
+                            table = {"<": not lt, "<=": not lt, ">": lt, ">=": lt, "==": False, "!=": True}
+                        return table[op]
             # finiteness assumptions on input atoms
             for x, y in ((a, b), (b, a)):
                 if y[0] == "num" and (y[1] == float("inf") or y[1] == float("-inf")) and self._finite(x):
@@ -827,7 +855,26 @@ class Interp:
         sp, iv, elem = self.iteration(it, st.iter)
         if sp is None:
             # concrete unrolling
-            for item in elem:
+            live = None
+            if self.cfg.flags.get("live_lists"):
+                # python iterates a list by position over the *current* contents: popping inside the loop shifts what the
+                # next position holds
+                if isinstance(it, Seq) and it.kind == "list":
+                    live = (it, False)
+                elif isinstance(it, ObjV) and it.tag == "enumerate" and isinstance(it.attrs["inner"], Seq) \
+                        and it.attrs["inner"].kind == "list":
+                    live = (it.attrs["inner"], True)
+
+            def items_():
+                if live is None:
+                    yield from elem
+                    return
+                k_ = 0
+                while k_ < len(live[0].items):
+                    x_ = live[0].items[k_]
+                    yield Seq([Sc(sym.Num(k_)), x_], "tuple") if live[1] else x_
+                    k_ += 1
+            for item in items_():
                 self.assign(st.target, item, env, st)
                 fr = self.frames[-1]
                 ls = dict(continues=[], breaks=[], path_base=len(self.path))
